@@ -66,6 +66,7 @@ MaxDS(shape, n, ds0) == CASE shape = "globals" -> ds0 + 2 * n + 1
                           [] shape = "jump" -> ds0 + n + 3
                           [] shape = "refused-then-continue" -> ds0 + n + 12
                           [] shape = "longjump" -> ds0 + 12
+                          [] shape \in {"deepfor", "widefor"} -> ds0 + 4 * n + 12
 MaxLocal(shape, n) == IF shape = "locals" THEN n - 1 ELSE IF shape = "refused-then-continue" THEN n ELSE IF shape = "jump" THEN 0 ELSE -1
 MaxJump(shape, n) == IF shape \in {"locals", "jump", "refused-then-continue", "longjump"} THEN n + 2 ELSE 2
 \* What the property demands does not depend on how economically a compiler uses the address space: a script needing at most
